@@ -75,6 +75,17 @@ impl Driver {
         self.queue.bump()
     }
 
+    /// (deadline, number of waiting timers) of all slots, in queue order.
+    #[cfg(petrichorit_des_verif)]
+    pub(crate) fn verif_slots(&self) -> Vec<(SimTime, usize)> {
+        self.queue
+            .pending
+            .borrow()
+            .iter()
+            .map(|slot| (slot.time, slot.entrys.borrow().len()))
+            .collect()
+    }
+
     pub(super) fn with_current<R>(f: impl FnOnce(&mut Driver) -> R) -> R {
         TIME_CTX.with(|ctx| {
             f(ctx
